@@ -200,8 +200,8 @@ def run(ctx):
                        'get_time_shift only asserted when the threshold is reached']
     only = getattr(ctx, 'only', None)
     if not only or 'subsample' in only:
-        run_hypothesis(ctx, 'subsample', subsample_case(), prop_subsample, 3000 if quick else 200000)
+        run_hypothesis(ctx, 'subsample', subsample_case(), prop_subsample, 3000 if quick else 60000)
     if not only or 'get_time_shift' in only:
-        run_hypothesis(ctx, 'get_time_shift', shift_case(), prop_shift, 1000 if quick else 50000)
+        run_hypothesis(ctx, 'get_time_shift', shift_case(), prop_shift, 1000 if quick else 15000)
     if not only or 'degree' in only:
-        run_hypothesis(ctx, 'degree', degree_case(), prop_degree, 1000 if quick else 50000)
+        run_hypothesis(ctx, 'degree', degree_case(), prop_degree, 1000 if quick else 15000)
